@@ -43,6 +43,9 @@ COQ_TARGETS = ['theories/Pass/BasicGates.vo', 'theories/Netlist/SpecHarness.vo',
 TRUSTED = ['Pass/BasicGates.v control skeletons (ripple / lt accumulation / Wallace passes / tree_reduce): '
            'guarded by the textual-identity gate of py/genfrag_C03.py and tied behaviourally on every run; all '
            'gate EXPRESSIONS are regenerated from the source (Gen/SynthGates.v, Gen/SynthFrags.v)',
+           'STRUCTURAL tie at small widths (operands <= 2 quick / <= 3 thorough, every op incl. truncated '
+           'destinations): the gate tree of every Output bit of the real synthesized block, unfolded through the '
+           'w/s/c plumbing, equals node for node the tree the Coq model emits (SynthHarness.struct_case)',
            'Pass/Synth.v (hand model of synthesize + _decompose as per-net gate-expression groups with the '
            'small-step semantics gstep/grun of 1-bit wires, 1-bit registers and word-level memories), tied '
            'behaviourally: every wire of every cycle of every design of part (b)',
@@ -173,6 +176,83 @@ def census(ctx, post, table):
         ctx.count(table, '%s/%s' % (net.op, '1' if all(x == 1 for x in widths) else 'wide'))
 
 
+GATE_CODE = {'~': 2, '&': 3, '|': 4, '^': 5, 'n': 6}
+
+
+class NotAGateTree(Exception):
+    pass
+
+
+def real_gate_trees(post, block, dump, merge, outputs):
+    """prefix code (see SynthHarness.gser) of the gate TREE of every bit of the given original
+    Outputs in the REAL synthesized block, unfolded through the w/s plumbing down to input bits,
+    constants and register bits -- the structural counterpart of Coq struct_case"""
+    import sys
+    sys.setrecursionlimit(max(sys.getrecursionlimit(), 20000))
+    src = {n.dests[0]: n for n in post.logic if n.dests}
+    leaf = {}
+    for w in block.wirevector_set:
+        if isinstance(w, pyrtl.Register):
+            for i, rb in enumerate(post.reg_map[w]):
+                leaf[rb] = (dump.wid[w], i)
+        if isinstance(w, pyrtl.Input) and not merge:
+            for i, bw in enumerate(post.io_map[w]):
+                leaf[bw] = (dump.wid[w], i)
+    memo = {}
+
+    def ser(w):
+        if w in memo:
+            return memo[w]
+        if isinstance(w, pyrtl.Const):
+            r = [1, w.val]
+        elif w in leaf:
+            r = [0, leaf[w][0], leaf[w][1]]
+        else:
+            n = src.get(w)
+            if n is None:
+                raise NotAGateTree('undriven wire %s' % w)
+            if n.op == 'w':
+                r = ser(n.args[0])
+            elif n.op == 's' and isinstance(n.args[0], pyrtl.Input) and len(n.op_param) == 1:
+                r = [0, dump.wid[block.wirevector_by_name[n.args[0].name]], n.op_param[0]]
+            elif n.op == '~':
+                r = [2] + ser(n.args[0])
+            elif n.op in GATE_CODE:
+                r = [GATE_CODE[n.op]] + ser(n.args[0]) + ser(n.args[1])
+            else:
+                raise NotAGateTree('net %s' % str(n))
+        memo[w] = r
+        return r
+
+    return [[ser(synth_bit_wire(post, o, i, merge)) for i in range(len(o))] for o in outputs]
+
+
+def structural_tie(ctx, tag, items):
+    """items: (label, dump, outs (original Output wires), real trees).  The Coq model's unfolded gate
+    trees (Synth.lower through SynthHarness.struct_case) must EQUAL the real block's, node for node."""
+    if not items:
+        return
+    exprs = ['struct_case %s %s' % (dump.coq(), nlx.zlist([dump.wid[o] for o in outs])) for _, dump, outs, _ in items]
+    try:
+        res = ctx.coq_eval(exprs, IMPORTS_SYNTH, tag=tag, shard=2, jobs=12)
+    except Exception as e:
+        ctx.model_mismatch('struct_case could not be evaluated: %s' % str(e)[-600:], {})
+        return
+    for (label, dump, outs, real), model in zip(items, res):
+        for o, rt, mt in zip(outs, real, model):
+            for i, (rb, mb) in enumerate(zip(rt, mt)):
+                ctx.count('structural_tie_bits', 'equal' if rb == mb else 'DIFFERENT')
+                ctx.count('structural_tie_gate_nodes', 'total', sum(1 for x in rb if x in (2, 3, 4, 5, 6)))
+                if rb != mb:
+                    ctx.model_mismatch('gate structure of bit %d of %s differs between the real synthesized block and '
+                                       'the Coq model (%s): real %s... model %s...' % (i, o.name, label, rb[:24], mb[:24]),
+                                       {'design': label, 'output': o.name, 'bit': i})
+                    return
+            if len(rt) != len(mt):
+                ctx.model_mismatch('bit count of %s differs (%s)' % (o.name, label), {'design': label})
+                return
+
+
 def part_a(ctx, only=None):
     N = 4 if ctx.tier == 'quick' else 6
     if only:
@@ -194,6 +274,7 @@ def part_a(ctx, only=None):
         for n in range(1, N + 1):
             model[('sel', n)] = res[k]
             k += 1
+    struct_items = []
     for wa, wb in itertools.product(range(1, N + 1), repeat=2):
         if only and (wa, wb) != tuple(only):
             continue
@@ -204,12 +285,21 @@ def part_a(ctx, only=None):
         try:
             post = pyrtl.synthesize(update_working_block=False, merge_io_vectors=merge, block=orig)
             sim = pyrtl.Simulation(tracer=pyrtl.SimulationTrace(block=post), block=post)
-        except (pyrtl.PyrtlError, pyrtl.PyrtlInternalError) as e:
+        except Exception as e:
             ctx.spec_violation('synthesize:raises', 'synthesize/Simulation raised on the op design %dx%d: %s' % (wa, wb, e),
                                {'wa': wa, 'wb': wb, 'merge_io_vectors': merge})
             continue
         census(ctx, post, 'gate_design_nets')
         ctx.count('width_pairs', '%dx%d' % (wa, wb))
+        if max(wa, wb) <= (2 if ctx.tier == 'quick' else 3):
+            sdump = nlx.Dump(orig)
+            souts = [orig_outputs[nm] for nm in sorted(orig_outputs)]
+            try:
+                struct_items.append(('ops %dx%d merge=%s' % (wa, wb, merge), sdump, souts,
+                                     real_gate_trees(post, orig, sdump, merge, souts)))
+            except NotAGateTree as e:
+                ctx.spec_violation('synthesize:shape', 'a bit of the synthesized op design %dx%d is not driven by a tree of '
+                                   '1-bit gates: %s' % (wa, wb, e), {'part': 'a', 'wa': wa, 'wb': wb})
         reported = set()
         for x in range(1 << wa):
             for y in range(1 << wb):
@@ -252,6 +342,7 @@ def part_a(ctx, only=None):
                                 reported.add((nm, 'model'))
                                 ctx.model_mismatch('Coq basic_select and the real synthesized select disagree at '
                                                    'width %d: s=%d x=%d y=%d model=%d real=%d' % (n, s, x, y, mv, got), rep)
+    structural_tie(ctx, 'c03struct', struct_items)
 
 
 # ----------------------------------------------------------------------------- (a')
@@ -262,6 +353,7 @@ def part_a_truncated(ctx):
     truncation in _replace_op and the per-bit loops of _decompose bounded by len(dest)."""
     N = 3 if ctx.tier == 'quick' else 4
     exprs, cases = [], []
+    struct_items = []
     for n in range(1, N + 1):
         pyrtl.reset_working_block()
         block = pyrtl.working_block()
@@ -297,7 +389,7 @@ def part_a_truncated(ctx):
         try:
             post = pyrtl.synthesize(update_working_block=False, merge_io_vectors=merge, block=block)
             sim = pyrtl.Simulation(tracer=pyrtl.SimulationTrace(block=post), block=post)
-        except (pyrtl.PyrtlError, pyrtl.PyrtlInternalError) as e:
+        except Exception as e:
             ctx.spec_violation('synthesize:raises', 'synthesize raised on hand-built truncated nets (n=%d): %s' % (n, e),
                                {'part': 'a-truncated', 'n': n})
             continue
@@ -318,6 +410,14 @@ def part_a_truncated(ctx):
         # the flattened model netlist under Sem.run (gate trees: only the small widths are executable)
         exprs.append('flat_case %s %s %s' % (dump.coq(), dump.inputs(inputs), outids) if n <= 2 else '[[1; 1; 1]]')
         cases.append(dict(n=n, outs=outs, inputs=inputs, got=got_rows, names=dump.names(), merge=merge))
+        if n <= (2 if ctx.tier == 'quick' else 3):
+            souts = [o for o, _, _ in outs]
+            try:
+                struct_items.append(('truncated n=%d merge=%s' % (n, merge), dump, souts,
+                                     real_gate_trees(post, block, dump, merge, souts)))
+            except NotAGateTree as e:
+                ctx.spec_violation('synthesize:shape', 'a bit of the synthesized truncated design n=%d is not driven by a '
+                                   'tree of 1-bit gates: %s' % (n, e), {'part': 'a-truncated', 'n': n})
     try:
         res = ctx.coq_eval(exprs, IMPORTS_SPEC + '\n' + IMPORTS_SYNTH, tag='c03trunc', shard=1, jobs=8)
     except Exception as e:
@@ -356,6 +456,7 @@ def part_a_truncated(ctx):
                     ctx.model_mismatch('Coq model of synthesize and the real block disagree on a %s net with %d-bit '
                                        'destination (args %d bits): %s model=%d real=%d' % (tag, wd, c['n'], vals, mod, got), rep)
         ctx.count('truncated_dest_outputs', 'n=%d' % c['n'], len(c['outs']))
+    structural_tie(ctx, 'c03structt', struct_items)
 
 
 # ----------------------------------------------------------------------------- (b)
@@ -669,12 +770,12 @@ def part_b(ctx, only=None):
             pyrtl.set_working_block(block, no_sanity_check=True)
             try:
                 post = pyrtl.synthesize(update_working_block=uwb, merge_io_vectors=merge, block=block)
-            except (pyrtl.PyrtlError, pyrtl.PyrtlInternalError) as e:
+            except Exception as e:   # PyRTL errors and plain Python errors (IndexError, KeyError...) alike
                 has_mem = bool(orig_memories(block))
                 sig = ('synthesize:unmerged-io-memory-raises' if (not merge and has_mem and 'acceptable set' in str(e))
                        else 'synthesize:raises')
-                ctx.spec_violation(sig, 'synthesize(merge_io_vectors=%s) raised on a well-formed design%s: %s' % (
-                    merge, ' with a memory' if has_mem else '', str(e)[:200]), rep)
+                ctx.spec_violation(sig, 'synthesize(merge_io_vectors=%s) raised %s on a well-formed design%s: %s' % (
+                    merge, type(e).__name__, ' with a memory' if has_mem else '', str(e)[:200]), rep)
                 ctx.case(('b', i, merge, uwb, 'raised'), nontrivial=nontrivial)
                 pyrtl.set_working_block(block, no_sanity_check=True)
                 continue
@@ -711,8 +812,9 @@ def part_b(ctx, only=None):
                         ctx.spec_violation('synthesize:testbench-raises', 'testbench raised on the synthesized block: %r' % e2, rep)
                 else:
                     ctx.spec_violation('synthesize:testbench-raises', 'testbench raised KeyError %r on the synthesized block' % e, rep)
-            except (pyrtl.PyrtlError, pyrtl.PyrtlInternalError) as e:
-                ctx.spec_violation('synthesize:testbench-raises', 'testbench raised on the synthesized block: %s' % e, rep)
+            except Exception as e:
+                ctx.spec_violation('synthesize:testbench-raises', 'testbench raised %s on the synthesized block: %s' % (
+                    type(e).__name__, e), rep)
             workaround = bool(memmap) and not maps_ok
             sample = None
             if i < 2 and merge and uwb:
@@ -831,7 +933,19 @@ def classify_mismatch(ctx, d, block, merge, regmap, memmap, inputs, t_orig, t_po
         elif attempt(True, True):
             sigs = ['synthesize:reset-value-dropped', 'synthesize:sub-top-bit']
         else:
-            sigs = ['synthesize:trace-mismatch']
+            # name the primitive that drives the first differing Output (through w/s/c plumbing)
+            src = {x.dests[0]: x for x in block.logic if x.dests}
+            w = block.wirevector_by_name.get(diff['output']) if diff else None
+            op = '?'
+            for _ in range(50):
+                nt = src.get(w)
+                if nt is None:
+                    break
+                op = nt.op
+                if nt.op not in 'wsc':
+                    break
+                w = nt.args[0]
+            sigs = ['synthesize:trace-mismatch:op=%s' % op]
     except Exception as e:
         sigs = ['synthesize:trace-mismatch']
         rep['classification_error'] = repr(e)
@@ -841,7 +955,7 @@ def classify_mismatch(ctx, d, block, merge, regmap, memmap, inputs, t_orig, t_po
                                       'differ from the original (vanishes when _basic_sub returns ~carry_out)',
             'synthesize:trace-mismatch': 'Output traces of original and synthesized block differ'}
     for s in sigs:
-        ctx.spec_violation(s, '%s (design %s, %s)' % (what[s], rep['design'], diff), rep)
+        ctx.spec_violation(s, '%s (design %s, %s)' % (what.get(s, what['synthesize:trace-mismatch']), rep['design'], diff), rep)
 
 
 def run(ctx):
